@@ -131,94 +131,6 @@ theorem coreInv_singletons (lv : Level) (hlv : LevelOK lv) :
     · intro j hj hne
       rw [labOf_range _ _ (Finset.mem_range.mp hj), if_neg hne]
 
-/-- one aggregation of `Louvain.fit`: what `_optimize` + `np.unique` + `_aggregate` give -/
-theorem louvain_level (lv : Level) (hlv : LevelOK lv) (res tolOpt : Rat) (coreFuel : Nat)
-    (labels1 : List Nat) (inc : Rat)
-    (h : louvainOptimize lv res tolOpt coreFuel (arange lv.n) = some (labels1, inc)) :
-    0 ≤ inc ∧ (uniqueInverse labels1).length = lv.n ∧
-    QL lv res (uniqueInverse labels1) = QL lv res (arange lv.n) + inc ∧
-    LevelOK (aggregate (uniqueInverse labels1) lv) ∧
-    WithinComp lv.graph (uniqueInverse labels1) := by
-  obtain ⟨h1, h2, h3, h4, -⟩ := optimizeCore_spec lv.graph hlv.graphOK res tolOpt lv.n coreFuel _
-    (coreInv_singletons lv hlv) labels1 inc h
-  have hlen1 : labels1.length = lv.n := h4
-  have hlen : (uniqueInverse labels1).length = lv.n := by rw [uniqueInverse_length, hlen1]
-  have hQ : QL lv res (uniqueInverse labels1) = QL lv res labels1 := by
-    refine Q_partition_congr _ _ _ _ _ _ _ fun u v hu hv => ?_
-    exact uniqueInverse_iff labels1 u v (by rw [hlen1]; exact hu) (by rw [hlen1]; exact hv)
-  have hw1 : WithinComp lv.graph labels1 :=
-    h3.withinComp hlv.graphOK.cols (by simp [arange, Level.graph]) (withinComp_singletons lv.graph)
-  refine ⟨h2, hlen, ?_, aggregate_levelOK _ lv hlv hlen, ?_⟩
-  · rw [hQ]
-    have : inc = QL lv res labels1 - QL lv res (arange lv.n) := h1
-    linarith
-  · intro u v hu hv huv
-    exact hw1 u v hu hv ((uniqueInverse_iff labels1 u v (by rw [hlen1]; exact hu) (by rw [hlen1]; exact hv)).mp huv)
-
-/-- **the outer loop.** `lv0` is the first level; `memb` maps its nodes to the nodes of the current level. -/
-theorem louvainLoop_spec (res tolOpt tolAgg : Rat) (nAgg : Int) (coreFuel : Nat) (lv0 : Level) :
-    ∀ (fuel count : Nat) (lv : Level) (memb : List Nat) (incs : List Rat) (out : FitOut),
-      LevelOK lv → memb.length = lv0.n → (∀ u, u < lv0.n → labOf memb u < lv.n) →
-      (∀ c' : Nat → Nat, Q lv.n (adj lv.graph) lv.graph.outW lv.graph.inW res c'
-          = Q lv0.n (adj lv0.graph) lv0.graph.outW lv0.graph.inW res (fun u => c' (labOf memb u))) →
-      louvainLoop res tolOpt tolAgg nAgg coreFuel fuel count lv memb incs = some out →
-      ∃ extra : List Rat, out.increases = incs ++ extra ∧ (∀ x ∈ extra, 0 ≤ x) ∧
-        out.labels.length = lv0.n ∧ QL lv0 res out.labels = QL lv0 res memb + extra.sum := by
-  intro fuel
-  induction fuel with
-  | zero => intro count lv memb incs out _ _ _ _ h; simp [louvainLoop] at h
-  | succ f ih =>
-    intro count lv memb incs out hlv hmlen hmb hQ h
-    simp only [louvainLoop] at h
-    split at h
-    · cases h
-    · rename_i labels1 inc hopt
-      obtain ⟨g1, g2, g3, g4, -⟩ := louvain_level lv hlv res tolOpt coreFuel labels1 inc hopt
-      -- the new membership and what it means for the objective
-      have hmlen' : (memb.map fun x => (uniqueInverse labels1).getD x 0).length = lv0.n := by simp [hmlen]
-      have hcomp : ∀ u, u < lv0.n →
-          labOf (memb.map fun x => (uniqueInverse labels1).getD x 0) u
-            = labOf (uniqueInverse labels1) (labOf memb u) := by
-        intro u hu
-        exact labOf_map memb _ u (by rw [hmlen]; exact hu)
-      have hQ' : ∀ c' : Nat → Nat,
-          Q (aggregate (uniqueInverse labels1) lv).n (adj (aggregate (uniqueInverse labels1) lv).graph)
-              (aggregate (uniqueInverse labels1) lv).graph.outW (aggregate (uniqueInverse labels1) lv).graph.inW res c'
-            = Q lv0.n (adj lv0.graph) lv0.graph.outW lv0.graph.inW res
-                (fun u => c' (labOf (memb.map fun x => (uniqueInverse labels1).getD x 0) u)) := by
-        intro c'
-        rw [aggregate_Q _ lv hlv g2 res c', hQ]
-        exact Q_congr _ _ _ _ _ _ _ fun u hu => by rw [hcomp u hu]
-      have hstep : QL lv0 res (memb.map fun x => (uniqueInverse labels1).getD x 0) = QL lv0 res memb + inc := by
-        have e1 : QL lv0 res (memb.map fun x => (uniqueInverse labels1).getD x 0)
-            = QL lv res (uniqueInverse labels1) := by
-          show Q lv0.n _ _ _ res _ = Q lv.n _ _ _ res _
-          rw [hQ (labOf (uniqueInverse labels1))]
-          exact Q_congr _ _ _ _ _ _ _ fun u hu => hcomp u hu
-        have e2 : QL lv res (arange lv.n) = QL lv0 res memb := by
-          show Q lv.n _ _ _ res _ = Q lv0.n _ _ _ res _
-          rw [hQ (labOf (arange lv.n))]
-          exact Q_congr _ _ _ _ _ _ _ fun u hu => labOf_range lv.n _ (hmb u hu)
-        rw [e1, g3, e2]
-      split at h
-      · simp only [Option.some.injEq] at h
-        subst h
-        exact ⟨[inc], rfl, by simpa using g1, hmlen', by simpa using hstep⟩
-      · have hmb' : ∀ u, u < lv0.n →
-            labOf (memb.map fun x => (uniqueInverse labels1).getD x 0) u < (aggregate (uniqueInverse labels1) lv).n := by
-          intro u hu
-          rw [hcomp u hu]
-          exact labOf_lt_nLabels _ _ (by rw [g2]; exact hmb u hu)
-        obtain ⟨extra, k1, k2, k3, k4⟩ := ih _ _ _ _ out g4 hmlen' hmb' hQ' h
-        refine ⟨inc :: extra, by rw [k1]; simp, ?_, k3, ?_⟩
-        · intro x hx
-          rcases List.mem_cons.mp hx with rfl | hx
-          · exact g1
-          · exact k2 x hx
-        · rw [k4, hstep, List.sum_cons]; ring
-
-/-! ### the same for the kernel with its bound on the passes (what `Louvain.fit` runs) -/
-
 /-- one aggregation of `Louvain.fit` as compiled (kernel with its bound on the passes) -/
 theorem louvain_level_capped (lv : Level) (hlv : LevelOK lv) (res tolOpt : Rat)
     (labels1 : List Nat) (inc : Rat)
